@@ -6,6 +6,7 @@
 -/
 import TE.Lemmas.TextLev
 import TE.Lemmas.TextWer
+import TE.Lemmas.TextBleu
 import TE.Lemmas.RankHit
 import TE.Lemmas.RankRetrieval
 namespace TE.C08
@@ -20,6 +21,12 @@ theorem edit_distance_dp_eq_lev {α : Type} [DecidableEq α] (pred ref : List α
     editDistance pred ref = Spec.Text.lev pred ref ∧
     editDistanceHelper pred ref = Spec.Text.lev pred ref :=
   ⟨dp_last pred ref, dp_last pred ref⟩
+
+/-- the two textbook formulations agree: the prefix-indexed recurrence and the
+    recursion on the first tokens (the one the Python oracle runs). -/
+theorem lev_prefix_eq_list {α : Type} [DecidableEq α] (a b : List α) :
+    Spec.Text.lev a b = Spec.Text.levL a b :=
+  lev_eq_levL a b
 
 example : editDistance [1, 2, 3] [1, 3, 4, 5] = 3 := by decide
 example : editDistanceHelper ["a", "b"] ([] : List String) = 2 := by decide
@@ -373,6 +380,53 @@ example : wipCompute (wipUpdate [[1, 2]] [[1, 3]]).1 (wipUpdate [[1, 2]] [[1, 3]
     = .val (1/4) := by decide +kernel
 example : wilCompute (wilUpdate [[1, 2]] [[1, 3]]).1 (wilUpdate [[1, 2]] [[1, 3]]).2.1 (wilUpdate [[1, 2]] [[1, 3]]).2.2
     = .val (3/4) := by decide +kernel
+
+end
+
+/-! ## 5b. BLEU bookkeeping -/
+
+section
+variable {α : Type} [DecidableEq α]
+
+/-- **clipped n-gram counts**: what `_bleu_score_update` adds to
+    `matches_by_order` for one candidate — n-grams of all orders in one
+    `Counter`, references joined with `|=`, candidate intersected with `&`,
+    entries routed by `len(ngram) − 1` — is, for every order `n = 1..N`,
+    Σ over the distinct candidate n-grams of
+    min(count in the candidate, max over the references of the count in the reference). -/
+theorem bleu_counts_eq (cand : List α) (refs : List (List α)) (N : Nat) :
+    matchesOf (cinter (getNgrams cand N) (refCounter refs N)) N
+      = (List.range N).map fun i => Spec.Text.clippedMatches (i + 1) cand refs :=
+  matchesOf_eq cand refs N
+
+/-- the effective reference length is a closest one (minimal `|r − c|`), the
+    shorter one on a tie; no reference at all is rejected (`min([])`). -/
+theorem bleu_closest_ref_len (c : Nat) (lens : List Nat) :
+    (lens ≠ [] → ∃ r, closestRefLen c lens = .ok r ∧ Spec.Text.IsClosestRefLen c lens r) ∧
+    (lens = [] → closestRefLen c lens = .error .value) :=
+  ⟨closestRefLen_spec c lens, fun h => by subst h; rfl⟩
+
+/-- one `(candidate, references)` step of `_bleu_score_update` for `n_gram ∈ 1..4`
+    and at least one reference: lengths, clipped matches and possible matches
+    (`len + 1 − n`, truncated at 0) per order are added to the running statistics. -/
+theorem bleu_step_eq (N : Nat) (hN : N = 1 ∨ N = 2 ∨ N = 3 ∨ N = 4) (acc : BleuStats)
+    (cand : List α) (refs : List (List α)) (hr : refs ≠ []) :
+    ∃ r, Spec.Text.IsClosestRefLen cand.length (refs.map (·.length)) r ∧
+      bleuStep N acc cand refs = .ok
+        ⟨acc.inputLen + cand.length, acc.targetLen + r,
+         addVec acc.matchesBy ((List.range N).map fun i => Spec.Text.clippedMatches (i + 1) cand refs),
+         addVec acc.possibleBy ((List.range N).map fun i => Spec.Text.possibleMatches (i + 1) cand.length)⟩ := by
+  obtain ⟨r, h1, h2⟩ := closestRefLen_spec cand.length (refs.map (·.length)) (by simpa using hr)
+  refine ⟨r, h2, ?_⟩
+  unfold bleuStep
+  rw [h1]
+  simp only [bind, Except.bind, hN, decide_true, Bool.not_true, Bool.false_eq_true, if_false,
+    matchesOf_eq, possibleOf_eq]
+  rfl
+
+example : matchesOf (cinter (getNgrams [1, 1, 2, 1] 2) (refCounter [[1, 2], [1, 1, 3]] 2)) 2 = [3, 2] := by decide
+example : Spec.Text.clippedMatches 1 [1, 1, 2, 1] [[1, 2], [1, 1, 3]] = 3 := by decide
+example : (closestRefLen 2 [3, 1]).toOption = some 1 := by decide
 
 end
 
